@@ -33,6 +33,10 @@ def run(ctx):
     from . import findings2 as _f2
     _f2.categorical_partition_labels(ctx, 'R8.10')
     r89(ctx, ut)
+    from . import append_route as _ar, c09 as _c09, c14 as _c14b
+    _ar.fresh_part_rule(ctx, 'R8.11')
+    _c09.r97(ctx, wr)
+    _c14b.r149(ctx, 'R8.12')
     from . import c14 as _c14
     _c14.r146(ctx, 'R8.8')
     c05.r56(ctx)
